@@ -654,22 +654,38 @@ struct Config {
     int kind; // 0 static_vector, 1 inplace_vector, 2 stack
     std::size_t cap;
 };
-#define SVC(T, N) Config{"static_vector<" #T "," #N ">", &SV<T, N>::run, NCODES, 0, N}
-#define IVC(T, N) Config{"inplace_vector<" #T "," #N ">", &IV<T, N>::run, I_NCODES, 1, N}
-#define STC(T, N) Config{"stack<" #T ",static_vector<" #T "," #N ">>", &STK<T, N>::run, S_NCODES, 2, N}
+// The configuration table (and with it the cfg ids in case strings) is the same in every build; -DC01_PART=k compiles
+// only one third of the instantiations (run == nullptr for the others) so that the three parts build in parallel.
+#if !defined(C01_PART)
+    #define C01_PART (-1)
+#endif
+#define IN_PART(k) (C01_PART == -1 || C01_PART == (k))
+template <typename R, bool On>
+constexpr auto pick_run() -> std::string (*)(OpsCase const&, int)
+{
+    if constexpr (On) {
+        return &R::run;
+    } else {
+        return nullptr;
+    }
+}
+#define SVC(T, N, part) Config{"static_vector<" #T "," #N ">", IN_PART(part) ? pick_run<SV<T, N>, IN_PART(part)>() : nullptr, NCODES, 0, N}
+#define IVC(T, N, part) Config{"inplace_vector<" #T "," #N ">", IN_PART(part) ? pick_run<IV<T, N>, IN_PART(part)>() : nullptr, I_NCODES, 1, N}
+#define STC(T, N, part) Config{"stack<" #T ",static_vector<" #T "," #N ">>", IN_PART(part) ? pick_run<STK<T, N>, IN_PART(part)>() : nullptr, S_NCODES, 2, N}
 using TCM = lt::TCM;
 Config const configs[] = {
-    SVC(int, 0), SVC(int, 1), SVC(int, 2), SVC(int, 4), SVC(int, 16), SVC(int, 255), SVC(int, 256),
-    SVC(TCM, 0), SVC(TCM, 1), SVC(TCM, 2), SVC(TCM, 4), SVC(TCM, 16), SVC(TCM, 255), SVC(TCM, 256),
-    IVC(int, 0), IVC(int, 1), IVC(int, 2), IVC(int, 4), IVC(int, 255), IVC(int, 256),
-    IVC(TCM, 0), IVC(TCM, 1), IVC(TCM, 2), IVC(TCM, 4), IVC(TCM, 255), IVC(TCM, 256),
-    STC(int, 1), STC(int, 4), STC(TCM, 1), STC(TCM, 4), STC(int, 0),
+    SVC(int, 0, 0), SVC(int, 1, 0), SVC(int, 2, 0), SVC(int, 4, 0), SVC(int, 16, 0), SVC(int, 255, 0), SVC(int, 256, 0),
+    SVC(TCM, 0, 1), SVC(TCM, 1, 1), SVC(TCM, 2, 1), SVC(TCM, 4, 1), SVC(TCM, 16, 1), SVC(TCM, 255, 1), SVC(TCM, 256, 1),
+    IVC(int, 0, 2), IVC(int, 1, 2), IVC(int, 2, 2), IVC(int, 4, 2), IVC(int, 255, 2), IVC(int, 256, 2),
+    IVC(TCM, 0, 2), IVC(TCM, 1, 2), IVC(TCM, 2, 2), IVC(TCM, 4, 2), IVC(TCM, 255, 2), IVC(TCM, 256, 2),
+    STC(int, 1, 2), STC(int, 4, 2), STC(TCM, 1, 2), STC(TCM, 4, 2), STC(int, 0, 2),
 };
 constexpr std::uint32_t nconfigs = sizeof(configs) / sizeof(configs[0]);
 
 auto run_case(OpsCase const& k, int stats) -> std::string
 {
     auto const& cfg = configs[k.cfg % nconfigs];
+    if (cfg.run == nullptr) { return "configuration is not part of this build (wrong C01_PART for this replay)"; }
     auto d          = cfg.run(k, stats);
     return d.empty() ? d : std::string(cfg.name) + ": " + d;
 }
@@ -694,7 +710,7 @@ void vf_run(vf::Ctx& c)
         int depth = c.thorough() ? 4 : 3;
         for (std::uint32_t ci = 0; ci < nconfigs; ++ci) {
             auto const& cfg = configs[ci];
-            if (cfg.cap > 2) { continue; }
+            if (cfg.cap > 2 || cfg.run == nullptr) { continue; }
             std::vector<RawOp> alpha;
             for (std::uint32_t code = 0; code < cfg.ncodes; ++code) {
                 // two argument shapes per op: (pos 0 / n small / target A) and (pos end / n max / target B)
@@ -713,6 +729,7 @@ void vf_run(vf::Ctx& c)
     int per_cfg = c.thorough() ? 8000 : 1200;
     for (std::uint32_t ci = 0; ci < nconfigs; ++ci) {
         auto const& cfg = configs[ci];
+        if (cfg.run == nullptr) { continue; }
         auto gen        = rc::gen::map(vf::gen_history(1, cfg.ncodes, 40), [ci](OpsCase k) {
             k.cfg = ci;
             return k;
